@@ -9,6 +9,7 @@ from __future__ import annotations
 
 import dis
 import sys
+from fractions import Fraction
 import types
 import z3
 
@@ -65,12 +66,6 @@ class CodeInfo:
         self.extable = []
         for e in dis._parse_exception_table(code):
             self.extable.append((e.start, e.end, self.off2idx[e.target], e.depth, e.lasti))
-        loops = {}
-        for i, ins in enumerate(self.instrs):
-            if ins.opname in ("JUMP_BACKWARD", "JUMP_BACKWARD_NO_INTERRUPT"):
-                t = self.off2idx[ins.argval]
-                loops[t] = max(loops.get(t, -1), i)
-        self.loops = sorted(loops.items())
         self.jt = [None] * len(self.instrs)
         for i, ins in enumerate(self.instrs):
             if ins.opcode in dis.hasjrel or ins.opcode in dis.hasjabs:
@@ -82,6 +77,7 @@ class CodeInfo:
         for e in self.extable:
             self.leaders.add(e[2])
         self._loopvec_cache = {}
+        self._find_loops()
         self.for_header = {}
         for i, ins in enumerate(self.instrs):
             if ins.opname == "FOR_ITER":
@@ -100,10 +96,69 @@ class CodeInfo:
             ci = cls.cache[code] = CodeInfo(code)
         return ci
 
+    def _succs(self):
+        n = len(self.instrs)
+        succ = [[] for _ in range(n)]
+        for i, ins in enumerate(self.instrs):
+            op = ins.opname
+            if op not in _NOFALL and i + 1 < n:
+                succ[i].append(i + 1)
+            if self.jt[i] is not None:
+                if op == "FOR_ITER":
+                    if self.jt[i] + 1 < n:
+                        succ[i].append(self.jt[i] + 1)
+                else:
+                    succ[i].append(self.jt[i])
+            h = self.handler(i)
+            if h is not None:
+                succ[i].append(h[0])
+        return succ
+
+    def _find_loops(self):
+        """natural loops (back edge b->h with h dominating b); handler blocks that jump back into a loop body
+        belong to that loop, and jumps from a handler to its continuation are not loops"""
+        n = len(self.instrs)
+        succ = self._succs()
+        pred = [[] for _ in range(n)]
+        for i in range(n):
+            for j in succ[i]:
+                pred[j].append(i)
+        full = (1 << n) - 1
+        dom = [full] * n
+        dom[0] = 1
+        changed = True
+        order = list(range(n))
+        while changed:
+            changed = False
+            for i in order[1:]:
+                if not pred[i]:
+                    continue
+                d = full
+                for p in pred[i]:
+                    d &= dom[p]
+                d |= (1 << i)
+                if d != dom[i]:
+                    dom[i] = d
+                    changed = True
+        bodies = {}
+        for b in range(n):
+            for h in succ[b]:
+                if h <= b and (dom[b] >> h) & 1:
+                    body = bodies.setdefault(h, set([h]))
+                    stack = [b]
+                    while stack:
+                        x = stack.pop()
+                        if x in body:
+                            continue
+                        body.add(x)
+                        stack.extend(pred[x])
+        self.loop_bodies = bodies
+        self.loops = sorted(bodies.items(), key=lambda kv: (-len(kv[1]), kv[0]))
+
     def enclosing(self, pc):
         v = self._loopvec_cache.get(pc)
         if v is None:
-            v = self._loopvec_cache[pc] = tuple(h for h, e in self.loops if h <= pc <= e)
+            v = self._loopvec_cache[pc] = tuple(h for h, body in self.loops if pc in body)
         return v
 
     def handler(self, pc):
@@ -203,7 +258,7 @@ class Frame:
 
 
 class State:
-    __slots__ = ("guard", "frames", "cur_exc", "tid", "status", "result", "prio", "held", "park")
+    __slots__ = ("guard", "frames", "cur_exc", "tid", "status", "result", "prio", "held", "park", "cg", "orig")
 
     def __init__(self, guard, frames, tid=0):
         self.guard = guard
@@ -215,11 +270,16 @@ class State:
         self.prio = None
         self.held = ()
         self.park = None
+        self.cg = TRUE  # context guard: alternative currently being processed by a lifted operation
+        # fork bookkeeping: stack of (guard before the fork, share of that fork this state still represents);
+        # when sibling pieces re-merge to a full share the guard is restored exactly (no formula growth)
+        self.orig = ()
 
     def copy(self, guard=None):
         s = State(self.guard if guard is None else guard, [f.copy() for f in self.frames], self.tid)
         s.cur_exc = self.cur_exc
         s.held = self.held
+        s.orig = self.orig
         return s
 
     def key(self):
@@ -238,6 +298,17 @@ class State:
 
     def where(self):
         return " <- ".join(repr(f) for f in reversed(self.frames[-4:]))
+
+
+_fork_ids = __import__("itertools").count(1)
+
+
+def mark_fork(guard_before, pieces):
+    """record that `pieces` together are exactly the state whose guard was guard_before"""
+    top = (guard_before, Fraction(1, len(pieces)), next(_fork_ids))
+    base = pieces[0].orig
+    for p in pieces:
+        p.orig = base + (top,)
 
 
 def same_value(a, b):
@@ -420,8 +491,9 @@ class VM:
         self.profile = None
         self.model_pool = []
         self.npool_hits = 0
+        self.nrestored = 0
         self.named = {}
-        self.name_threshold = 48
+        self.name_threshold = int(__import__('os').environ.get('VF_STATE_T', '48'))
         self.access_log = None  # Engine B: list of field accesses for the lockset analysis
         bexp.namer = self.name_guard
         from . import natives
@@ -578,6 +650,7 @@ class VM:
             s = pending.pop(key)
             if not pending and not self.lost and s.guard is not self.root_guard:
                 s.guard = self.root_guard
+                s.orig = ()
             try:
                 succ = self.step_block(s)
             except Unsupported as e:
@@ -612,9 +685,23 @@ class VM:
         s.cur_exc = vmerge(g, s.cur_exc, other.cur_exc)
         if s.held != other.held:
             s.held = tuple(h for h in s.held if h in other.held)
-        s.guard = OR(g, other.guard)
-        if s.guard.sz > self.name_threshold:
-            s.guard = self.name_guard(s.guard)
+        restored = False
+        if s.orig and other.orig and len(s.orig) == len(other.orig) and s.orig[-1][2] == other.orig[-1][2] \
+                and s.orig[:-1] == other.orig[:-1]:
+            share = s.orig[-1][1] + other.orig[-1][1]
+            if share == 1:
+                s.guard = s.orig[-1][0]
+                s.orig = s.orig[:-1]
+                restored = True
+                self.nrestored += 1
+            else:
+                s.orig = s.orig[:-1] + ((s.orig[-1][0], share, s.orig[-1][2]),)
+        else:
+            s.orig = ()
+        if not restored:
+            s.guard = OR(g, other.guard)
+            if s.guard.sz > self.name_threshold:
+                s.guard = self.name_guard(s.guard)
         s.compute_prio()
         pending[k] = s
 
@@ -661,6 +748,8 @@ class VM:
     # ------------------------------------------------------------------ exceptions
     def raise_under(self, s, g: B, exc):
         """split off the part of s where g holds and make it raise exc"""
+        if s.cg is not TRUE:
+            g = AND(g, s.cg)
         gg = AND(s.guard, g)
         if gg is FALSE:
             return
@@ -672,6 +761,7 @@ class VM:
         if rest is FALSE:
             raise VMRaise(exc)
         fork = s.copy(gg)
+        mark_fork(s.guard, [s, fork])
         self.forks.extend(self.unwind(fork, exc))
         s.guard = rest
 
@@ -751,11 +841,16 @@ class VM:
             if self.use_solver and not self.feasible(gg):
                 continue
             alts.append((gg, x))
+        if not alts:
+            s.guard = FALSE
+            return []
         if len(alts) == 1:
             r = k(s, alts[0][1])
             return self._succ_of(s, r)
+        top = (s.guard, Fraction(1, len(alts)), next(_fork_ids))
         for gg, x in alts:
             s2 = s.copy(gg)
+            s2.orig = s.orig + (top,)
             saved = self.forks
             self.forks = []
             try:
@@ -899,6 +994,14 @@ class VM:
                     tuple(args)):
                 return self.do_call(s, f0, [fn.__self__] + list(args), kwargs, on_return)
         if isinstance(fn, VObj) or t is Sym:
+            if t is VModel:
+                h = self.model_methods.get((fn.kind, "__call__"))
+                if h is not None:
+                    r = h(self, s, fn, list(args), kwargs)
+                    if isinstance(r, _Pending):
+                        return r.value
+                    self.deliver(s, r, on_return)
+                    return JUMPED
             if t is VInst:
                 call = static_lookup(fn.cls, "__call__")
                 if call is not MISSING:
@@ -1048,6 +1151,9 @@ class VM:
             f.pc = f.ci.jt[f.pc]
             self.landed = True
             return JUMPED
+        if kind == "drain":
+            self.deliver(s, aux[0], aux[1])
+            return JUMPED
         if kind == "next":
             if aux is not None and aux[0] == "default":
                 self.deliver(s, aux[1], aux[2])
@@ -1059,6 +1165,13 @@ class VM:
         kind = fr.resume_kind
         aux = fr.aux
         gen = fr.gen
+        if kind == "drain":
+            # the consumer only collects: stay inside the generator (states re-merge at the generator's own loops)
+            from . import containers
+            containers.list_append(self, s, aux[0], val, s.guard)
+            fr.stack.append(None)
+            fr.pc += 1
+            return JUMPED
         s.frames.pop()
         fr.pc += 1
         self._gen_save(gen, s.guard, fr)
